@@ -2,6 +2,7 @@ SPECIFICATION Spec
 CONSTANTS
   ClosesPipeOnBuildError = TRUE
   ClosesFilesOnParamsError = TRUE
+  CopyMarksEndSeen = FALSE
   CancelsBeforeClose = FALSE
   ClosesFilesOnFieldError = TRUE
   FileLen = 2
@@ -9,7 +10,7 @@ CONSTANTS
   ZeroLenReadSetsEOF = FALSE
   PNames = {"none", "buffer", "reader", "mp10", "mp01", "mp11", "mp02", "mp12"}
   Auths = {"none", "ok", "read"}
-  Readers = {"all", "p0", "p1"}
+  Readers = {"all", "p0", "p1", "w1"}
   Cancels = {"none", "auth", "send", "read"}
   MaxFaults = 2
 INVARIANTS InvResult InvReleased InvTime
